@@ -130,4 +130,30 @@ def oracle_C03(C, rec, counters):
     return out
 
 
-ORACLES = {"C02": oracle_C02, "C03": oracle_C03}
+VOID_FAMS = ("0", "1", "2", "7")
+
+
+def oracle_C01(K, rec, counters):
+    """spec side: Spec.peg_fn (extracted; proved equal to the Peg relation) on the generator's SURFACE
+    grammar, compared with the real parse() result and consumed byte count, for every configuration
+    that attaches only void actions"""
+    gid = rec["gid"]
+    tie = K.tie.get(gid)
+    if tie is None or tie == "notclassical":
+        return []
+    cfg = rec["cfg"].split(".")
+    if not (cfg[0] in VOID_FAMS or cfg[2] == "0"):
+        return []
+    sp = K.spec.get((gid, rec["input"]))
+    if sp is None or sp == "?":
+        return []
+    counters["spec_compared"] += 1
+    got = rec["res"][:1]
+    if got == "T":
+        got = "T " + rec["cur"].split(",")[0]
+    if got != sp:
+        return ["formalism says %s but parse() gave %s (result %s, cursor %s)" % (sp, got, rec["res"][:40], rec["cur"])]
+    return []
+
+
+ORACLES = {"C01": oracle_C01, "C02": oracle_C02, "C03": oracle_C03}
